@@ -87,3 +87,56 @@ def canon(node, res=None):
     if isinstance(node, ast.Attribute):
         return "%s.%s" % (canon(node.value), node.attr)
     return norm(node)
+
+
+def state_after(stmts, env=None, methods=None):
+    """Sequential symbolic state after straight-line statements: keys are the normalised texts of assigned names AND attributes
+    (`self.lines`), values are expressions over the state at entry.  Reads of a key assigned earlier see the new value (so that
+    `a.x = f(a.x); b.y = g(a.x)` is followed faithfully).  Compound statements are skipped after forgetting what they may rebind;
+    `self.m()` calls of single-return methods given in `methods` are replaced by their returned expression."""
+    env = dict(env or {})
+
+    def subst(e):
+        class T(ast.NodeTransformer):
+            def visit_Name(self, n):
+                if isinstance(n.ctx, ast.Load) and n.id in env:
+                    return clone(env[n.id])
+                return n
+
+            def visit_Attribute(self, n):
+                k = norm(n)
+                if isinstance(n.ctx, ast.Load) and k in env:
+                    return clone(env[k])
+                return self.generic_visit(n)
+
+            def visit_Call(self, n):
+                n = self.generic_visit(n)
+                if methods and isinstance(n.func, ast.Attribute) and isinstance(n.func.value, ast.Name) and n.func.value.id == "self" \
+                        and n.func.attr in methods and not n.args and not n.keywords:
+                    f = methods[n.func.attr]
+                    body = [s for s in f.body if not (isinstance(s, ast.Expr) and isinstance(s.value, ast.Constant))]
+                    if len(body) == 1 and isinstance(body[0], ast.Return) and body[0].value is not None and len(f.args.args) == 1:
+                        return T().visit(clone(body[0].value))
+                return n
+        return T().visit(clone(e))
+    for st in stmts:
+        if isinstance(st, ast.Assign):
+            v = subst(st.value)
+            for tg in st.targets:
+                if isinstance(tg, (ast.Name, ast.Attribute)):
+                    env[norm(tg)] = v
+                elif isinstance(tg, ast.Tuple) and isinstance(v, ast.Tuple) and len(tg.elts) == len(v.elts):
+                    for t, x in zip(tg.elts, v.elts):
+                        if isinstance(t, (ast.Name, ast.Attribute)):
+                            env[norm(t)] = x
+        elif isinstance(st, ast.AugAssign) and isinstance(st.target, (ast.Name, ast.Attribute)):
+            k = norm(st.target)
+            cur = env.get(k, st.target)
+            env[k] = ast.BinOp(left=clone(cur), op=st.op, right=subst(st.value))
+        elif isinstance(st, (ast.Expr, ast.Assert, ast.Pass, ast.Continue, ast.Break, ast.Return)):
+            continue
+        else:
+            for n in ast.walk(st):
+                if isinstance(n, (ast.Name, ast.Attribute)) and isinstance(n.ctx, (ast.Store, ast.Del)):
+                    env.pop(norm(n), None)
+    return env
